@@ -56,5 +56,6 @@ def generate(G):
          skeleton={"stack": "Conv(1x1x1x1) -> Conv(1x1x2x2)", "input": [1, 3, 2], "cost": "Bilinear", "iterations": 1,
                    "windows_of_second_layer": "2 x 1 (non-square)"}, domains="D2")
     conv([1, 2, 3], [1, 1, 2, 2], (1, 1), 1, "thorough")
+    conv([1, 1, 2, 3], [2, 1, 2, 2], (1, 1), 1, "thorough")     # rank-4 input, two filters, two positions: bias [2,1,1] reduced from [1,2,1,2]
     conv([2, 1, 2, 2], [1, 1, 2, 1], (1, 1), 1, "thorough")
     conv([1, 2, 2], [1, 1, 1, 2], (1, 1), 2, "thorough")
